@@ -76,6 +76,8 @@ package alloctxn
 // address inside the bitmap region starting at blk (R8 schema: 1-bit objects).
 //@ spec (*AllocTxn).WriteBits(atxn, nums, blk, alloc)
 //@   props C01 C11
+// R3-bit (C01, C05, C15): the bit written for number n is bit n of the bitmap that starts at blk, set exactly for an allocation
+//@   callsite jrnl.(*Op).OverWrite@1 requires [R3-bit] arg2 == 1 && len(arg3) == 1 && arg1.Blkno == blk + n / 32768 && arg1.Off == n % 32768 && ((arg3[0] & (uint8(1) << (n % 8)) != 0) <==> alloc) @C01 @C05
 //@   requires atxnInv(atxn) && lastst == 0
 //@   requires [R8-bitmaprange] forall i uint64 :: i < len(nums) ==> blk + nums[i]/32768 < dsksize @C01 @C11
 
